@@ -93,7 +93,21 @@ fn gen_code(rng: &mut Rng, c: usize, max_n: u64, allow_bad: bool) -> Code {
     }
     let n = rng.range(1, max_n) as usize;
     let depth = rng.range(1, 2) as u32;
-    Code::Adf(AdfSpec::gen(rng, n, depth, &marker(c)))
+    let mut spec = AdfSpec::gen(rng, n, depth, &marker(c));
+    if rng.chance(1, 4) {
+        // labels that end like keywords or numbers (string-encoded numbers sort "10" < "2")
+        let pool = ["and", "or", "neg", "c", "v", "f", "10", "2", "1", "0", "iff"];
+        let mut used: Vec<String> = Vec::new();
+        for i in 0..spec.names.len() {
+            let mut cand = format!("{}{}", marker(c), pool[rng.below(pool.len() as u64) as usize]);
+            while used.contains(&cand) {
+                cand.push('q');
+            }
+            used.push(cand.clone());
+            spec.names[i] = cand;
+        }
+    }
+    Code::Adf(spec)
 }
 
 /// A code from a tiny pool shared by all clients (no client marker in it): two users then hold
